@@ -44,6 +44,13 @@ Record chan := mkChan {
 (* Once (shuttle-std/src/sync/once.rs): per-execution state, the flag inside the Mutex<bool> *)
 Inductive once_state := OnNone | OnRunning | OnComplete (c : vclock).
 
+(* JoinHandleInner + the abort flag of a spawned future (shuttle-std/src/future.rs) *)
+Record join_inner := mkJoin {
+  ji_result : option (option N);               (* None = not finished; Some (Some v) = Ok(v); Some None = Err(Cancelled) *)
+  ji_waker : option nat;                       (* the task whose Waker is stored *)
+  ji_aborted : bool;
+}.
+
 Inductive obj :=
 | OAtomic (v : N) (c : vclock)                (* shuttle-std Atomic<T>: value + clock *)
 | OSem (s : sem)
@@ -53,7 +60,8 @@ Inductive obj :=
 | OChan (c : chan)
 | OBarrier (bound : nat) (epoch : nat) (waiters : list nat) (leader_tokens : list nat) (clk : vclock)
 | OOnce (st : once_state) (flag : bool) (mutex : nat)      (* `mutex` = index of the object holding the inner Mutex<bool> *)
-| OCell (vals : list N) (clk : vclock).                     (* plain shared cell used by the harness (join results etc.) *)
+| OCell (vals : list N) (clk : vclock)
+| OJoins (l : list (nat * join_inner)).                     (* per async task id: its JoinHandle state *)                     (* plain shared cell used by the harness (join results etc.) *)
 
 Definition store := list obj.
 
